@@ -5,6 +5,7 @@ package main
 import (
 	"bytes"
 	"encoding/binary"
+	"errors"
 	"fmt"
 	"math/rand"
 	"runtime"
@@ -25,6 +26,7 @@ type Shape struct { // an entry of a TLC-exported state, relative to its `now`
 type C19Job struct {
 	Behaviours []Behaviour `json:"behaviours"`
 	Map        Map         `json:"map"`
+	Maps       []Map       `json:"maps"` // behaviours are realised under Maps[bi % len] (default: Map)
 	Shapes     []Shape     `json:"shapes"`
 	BigN       int         `json:"big_n"`
 	BigExec    int         `json:"big_exec"`
@@ -34,7 +36,19 @@ type C19Job struct {
 	Lazy       int         `json:"lazy"`
 }
 
+// runC19: a GET /dump that fails for a legally filled cache is a RESULT (the check turns it into a
+// violation), not a driver error.
 func runC19(j *C19Job) error {
+	err := runC19x(j)
+	var df *dumpFailed
+	if errors.As(err, &df) {
+		vh.Emit(ev{"kind": "dumpfail", "status": df.Status, "cq": df.CQ, "body": df.Body})
+		return nil
+	}
+	return err
+}
+
+func runC19x(j *C19Job) error {
 	hv, err := newHarvester()
 	if err != nil {
 		return err
@@ -44,7 +58,7 @@ func runC19(j *C19Job) error {
 	for bi := range j.Behaviours {
 		var rec TraceRec
 		for attempt := 0; attempt < 3; attempt++ {
-			rec, err = c19Behaviour(bi, &j.Behaviours[bi], &j.Map, hv, rng)
+			rec, err = c19Behaviour(bi, &j.Behaviours[bi], j.mapFor(bi), hv, rng)
 			if err != nil {
 				return fmt.Errorf("behaviour %d: %w", bi, err)
 			}
@@ -65,6 +79,13 @@ func runC19(j *C19Job) error {
 		}
 	}
 	return nil
+}
+
+func (j *C19Job) mapFor(bi int) *Map {
+	if len(j.Maps) == 0 {
+		return &j.Map
+	}
+	return &j.Maps[bi%len(j.Maps)]
 }
 
 func c19Behaviour(bi int, b *Behaviour, m *Map, hv *keyHarvester, rng *rand.Rand) (TraceRec, error) {
@@ -93,8 +114,12 @@ func c19Behaviour(bi int, b *Behaviour, m *Map, hv *keyHarvester, rng *rand.Rand
 		}
 		switch st.A {
 		case "Dump":
-			if _, err := w.doDump(st.I, true, true); err != nil {
+			body, err := w.doDump(st.I, true, true)
+			if err != nil {
 				return TraceRec{}, err
+			}
+			if body == nil { // failed dump request: recorded with its status; the trace ends here
+				return TraceRec{Kind: "trace", Beh: bi, Tag: "behaviour", Events: w.events, Slow: false, Notes: w.notes}, nil
 			}
 		case "Load":
 			w.doLoad(st.J, w.lastDump, false)
@@ -115,18 +140,38 @@ func c19Behaviour(bi int, b *Behaviour, m *Map, hv *keyHarvester, rng *rand.Rand
 }
 
 // bigEntries: n entries with distinct questions, shaped like entries of TLC-exported states.
+// bigEntries: n entries with distinct questions, shaped like entries of TLC-exported states. The
+// questions cover key bytes >= 0x80: types 128/255/32769/65535, class ANY/CH/65535, names of >= 128
+// octets and names with escaped non-ASCII octets.
 func bigEntries(j *C19Job, m *Map, n int, rng *rand.Rand) []AEntry {
+	types := []uint16{1, 28, 255, 32769, 128, 65535, 16, 257}
+	classes := []uint16{1, 255, 3, 65535}
+	m.Types = map[string]uint16{} // own symbols only: the inverse map must stay unambiguous
+	m.Classes = map[string]uint16{}
+	for i, t := range types {
+		m.Types[fmt.Sprintf("bt%d", i)] = t
+	}
+	for i, c := range classes {
+		m.Classes[fmt.Sprintf("bc%d", i)] = c
+	}
+	long := ""
+	for len(long) < 140 {
+		long += "label-of-some-length."
+	}
 	var out []AEntry
 	for k := 0; k < n; k++ {
 		sh := j.Shapes[rng.Intn(len(j.Shapes))]
 		nm := fmt.Sprintf("e%d", k)
-		m.Names[nm] = fmt.Sprintf("host-%d.big.example.", k)
-		ty := "t1"
-		if k%3 == 1 {
-			ty = "t2"
+		switch k % 5 {
+		case 3:
+			m.Names[nm] = fmt.Sprintf("h%d.%sbig.example.", k, long) // >= 128 octets: the length byte of the key is >= 0x80
+		case 4:
+			m.Names[nm] = fmt.Sprintf("h%d.\\195\\188ber-\\255\\128.big.example.", k) // escaped non-ASCII octets
+		default:
+			m.Names[nm] = fmt.Sprintf("host-%d.big.example.", k)
 		}
-		out = append(out, AEntry{Owner: AQ{N: nm, T: ty, C: "c1", F: k % 8}, Id: 1000 + k, R: sh.R,
-			Stored: sh.Stored, MsgExp: sh.MsgExp, CacheExp: sh.CacheExp})
+		out = append(out, AEntry{Owner: AQ{N: nm, T: fmt.Sprintf("bt%d", k%len(types)), C: fmt.Sprintf("bc%d", (k/len(types))%len(classes)), F: k % 8},
+			Id: 1000 + k, R: sh.R, Stored: sh.Stored, MsgExp: sh.MsgExp, CacheExp: sh.CacheExp})
 	}
 	return out
 }
@@ -136,6 +181,14 @@ func cloneMap(m *Map) *Map {
 	c.Names = map[string]string{}
 	for k, v := range m.Names {
 		c.Names[k] = v
+	}
+	c.Types = map[string]uint16{}
+	for k, v := range m.Types {
+		c.Types[k] = v
+	}
+	c.Classes = map[string]uint16{}
+	for k, v := range m.Classes {
+		c.Classes[k] = v
 	}
 	return &c
 }
@@ -162,13 +215,18 @@ func c19Big(j *C19Job, hv *keyHarvester, rng *rand.Rand) error {
 			nm := fmt.Sprintf("x%d", k)
 			m.Names[nm] = fmt.Sprintf("stored-%d.big.example.", k)
 			sh := j.Shapes[rng.Intn(len(j.Shapes))]
-			if _, _, err := w.doExec(1, AQ{N: nm, T: "t1", C: "c1", F: k % 8, K: "std"}, sh.R, kn); err != nil {
+			if _, _, err := w.doExec(1, AQ{N: nm, T: "bt0", C: "bc0", F: k % 8, K: "std"}, sh.R, kn); err != nil {
 				return err
 			}
 		}
 		body, err := w.doDump(1, true, true)
 		if err != nil {
 			return err
+		}
+		if body == nil { // the dump request failed: recorded in the trace (status), nothing more to drive
+			w.close()
+			vh.Emit(TraceRec{Kind: "trace", Beh: -1, Tag: "big-restart", Events: w.events, Slow: false, Notes: w.notes})
+			return nil
 		}
 		w.doLoad(2, body, false)
 		probe := AR{Rc: 0, Nan: 1, Ttls: []int{77}}
@@ -182,7 +240,7 @@ func c19Big(j *C19Job, hv *keyHarvester, rng *rand.Rand) error {
 			}
 		}
 		for k := 0; k < j.BigExec; k++ {
-			q := AQ{N: fmt.Sprintf("x%d", k), T: "t1", C: "c1", F: k % 8, K: "std"}
+			q := AQ{N: fmt.Sprintf("x%d", k), T: "bt0", C: "bc0", F: k % 8, K: "std"}
 			for _, i := range []int{1, 2} {
 				if _, _, err := w.doExec(i, q, probe, kn); err != nil {
 					return err
@@ -217,6 +275,11 @@ func c19Big(j *C19Job, hv *keyHarvester, rng *rand.Rand) error {
 		body, err := w.doDump(1, true, true)
 		if err != nil {
 			return err
+		}
+		if body == nil {
+			w.close()
+			vh.Emit(TraceRec{Kind: "trace", Beh: -1, Tag: "truncation", Events: w.events, Slow: false, Notes: w.notes, Extra: ev{"cuts": []int{}}})
+			return nil
 		}
 		if first {
 			first = false
@@ -305,6 +368,9 @@ func c19Garbage(j *C19Job, hv *keyHarvester, rng *rand.Rand) error {
 	w.close()
 	if err != nil {
 		return err
+	}
+	if good == nil {
+		return nil // dump failure already recorded by the restart leg
 	}
 	type tc struct {
 		name string
